@@ -133,6 +133,37 @@ def drain_tail(p, quiet=0.5, limit=15.0):
     return bytes(p.collected)
 
 
+def settle_tail(p, done, quiet=3.0, limit=90.0):
+    """collect the listener's output until `done(bytes)` holds - the normal case, reached as soon as
+    the last block has been relayed - or, failing that, until it has printed nothing new for `quiet`
+    seconds (a generous margin: a loaded machine must not turn slowness into a verdict); then stop it"""
+    t0 = time.time()
+    while time.time() - t0 < limit:
+        if done(bytes(p.collected)):
+            break
+        if time.time() - p.last_growth > quiet and time.time() - t0 > quiet:
+            break
+        time.sleep(0.05)
+    p.send_signal(signal.SIGTERM)
+    try:
+        p.wait(timeout=10)
+    except subprocess.TimeoutExpired:
+        p.kill()
+    p.pump.join(timeout=5)
+    return bytes(p.collected)
+
+
+def reassembled(out, flt, want):
+    """do the header-introduced blocks of `out` reassemble, per admitted key, to `want`?"""
+    blocks = parse_tail(out)
+    if blocks is None:
+        return False
+    per = {}
+    for k, b in blocks:
+        per[k] = per.get(k, b"") + b
+    return all(per.get(k, b"") == w for k, w in want.items() if admitted(flt, k))
+
+
 def admitted(flt, key):
     stream, target, command = key
     if stream == "stdout" and not flt["stdout"]:
@@ -232,7 +263,7 @@ def c20_case(seed, model, rep):
         tail = start_tail(repo, flt)
         rc, doc, logs, err = run_once(repo)
         tail.last_growth = time.time()
-        tout = drain_tail(tail)
+        tout = settle_tail(tail, lambda o: reassembled(o, flt, expect))
         rep.evaluations += 1
         rep.count("filter_targets" if flt["targets"] else "filter_any_target")
         rep.count("filter_commands" if flt["commands"] else "filter_any_command")
@@ -308,8 +339,13 @@ def c08_volume_case(seed, model, rep):
         repo.done()
 
 
-def blocks_vs_stored(repo, tout, flt, case, rep):
+def blocks_vs_stored(repo, tail, flt, case, rep):
     """C20 judged against the stored logs themselves (whatever the run's outcome was)"""
+    rc0, _, shown0, _ = repo.mono("log", "show", "--stdout", "--stderr", timeout=120)
+    stored0 = storeobs.parse_log_show(shown0) if rc0 == 0 else {}
+    want0 = {k: v for k, v in stored0.items() if v.endswith(b"\n")}
+    tail.last_growth = time.time()
+    tout = settle_tail(tail, lambda o: reassembled(o, flt, want0))
     blocks = parse_tail(tout)
     if blocks is None:
         rep.oracle_fail({"kind": "listener output is not header-introduced blocks", "case": case, "head": tout[:300].decode("utf-8", "replace")})
@@ -348,15 +384,14 @@ def c20_cancel_case(seed, model, rep):
     try:
         tail = start_tail(repo, flt)
         rc, j, out, err = repo.mono("run", "-c", "build", "-t", "app", "app2", "lib", "--deps", timeout=120)
-        tail.last_growth = time.time()
-        tout = drain_tail(tail)
         scen.reap_helpers(repo)
         rep.evaluations += 1
         rep.count("cancel_cases")
         if rc != 1:
+            tail.kill()
             rep.count("cancel_case_unexpected_rc")
             return
-        if blocks_vs_stored(repo, tout, flt, case, rep):
+        if blocks_vs_stored(repo, tail, flt, case, rep):
             rep.nontrivial_case({"seed": seed, "mode": "cancel"})
     finally:
         repo.done()
@@ -389,14 +424,13 @@ def c20_stall_case(seed, model, rep):
             scen.kill_tree(p)
             rep.oracle_fail({"kind": "run did not finish after the listener resumed", "case": case})
             return
-        tail.last_growth = time.time()
-        tout = drain_tail(tail, quiet=1.5, limit=120.0)
         rep.evaluations += 1
         rep.count("stall_cases")
         if p.returncode != 0:
+            tail.kill()
             rep.count("stall_case_unexpected_rc")
             return
-        if blocks_vs_stored(repo, tout, flt, case, rep):
+        if blocks_vs_stored(repo, tail, flt, case, rep):
             rep.nontrivial_case({"seed": seed, "mode": "stall"})
     finally:
         repo.done()
